@@ -33,3 +33,19 @@ pub fn once(_attr: TokenStream, item: TokenStream) -> TokenStream {
     out.extend(marker);
     out
 }
+
+/// `#[once::returns(expr)] fn f(..) -> T;` supplies the body of a body-less function declaration:
+/// the trailing `;` is replaced by `{ expr }`. (A declaration without a body is syntactically valid
+/// input to attribute macros; entrait must pass it through untouched.)
+#[proc_macro_attribute]
+pub fn returns(attr: TokenStream, item: TokenStream) -> TokenStream {
+    let mut tts: Vec<TokenTree> = item.into_iter().collect();
+    match tts.last() {
+        Some(TokenTree::Punct(p)) if p.as_char() == ';' => {
+            tts.pop();
+        }
+        _ => panic!("#[returns] expects a function declaration ending in `;`"),
+    }
+    tts.push(TokenTree::Group(proc_macro::Group::new(proc_macro::Delimiter::Brace, attr)));
+    tts.into_iter().collect()
+}
